@@ -245,6 +245,26 @@ class ParseSuite:
     def nontrivial(self, case, out):
         return case["fn"] not in ("class", "int", "main") and "ok" in out
 
+    @staticmethod
+    def documented_call(s):
+        """The reading of the --bob / --single help text: '<pn>' or '<loc>: <pn>' parts separated by '/', <loc> a plain
+        (possibly negative) decimal integer, <pn> bell symbols, x, - and dots.  Returns the dictionary the text defines,
+        or None when the string is not of that plain documented form (then this oracle has no opinion)."""
+        res = {}
+        for part in s.split("/"):
+            m = re.fullmatch(r" *(?:(-?[0-9]+) *: *)?([0-9ETABCDx.\-]+) *", part)
+            if not m:
+                return None
+            pn = m.group(2)
+            # a usable notation: no empty change, no doubled dots
+            if re.search(r"\.\.|^\.|\.$", pn) or not re.fullmatch(r"(?:[x\-]|[0-9ETABCD]+)(?:\.?(?:[x\-]|[0-9ETABCD]+))*", pn):
+                return None
+            loc = int(m.group(1)) if m.group(1) is not None else 0
+            if loc in res:
+                return None
+            res[loc] = pn
+        return res
+
     def oracle_C18(self, case, out):
         fn = case["fn"]
         if fn == "main":
@@ -261,6 +281,8 @@ class ParseSuite:
             # documented forms must not be rejected
             if fn == "parse_peal_speed" and re.fullmatch(r"\d{1,3}h[0-5]?\dm?|\d{1,4}m?", s):
                 return f"peal speed {s!r} is of a documented form but was rejected"
+            if fn == "parse_call" and self.documented_call(s) is not None:
+                return f"call definition {s!r} is of the documented form (as in the --bob/--single help text) but was rejected: {out.get('msg')}"
             return None
         v = out["ok"]
         if fn == "parse_peal_speed":
@@ -270,6 +292,10 @@ class ParseSuite:
             m = re.fullmatch(r"\s*(\d+)m?\s*", s)
             if m and v != int(m.group(1)):
                 return f"peal speed {s!r} parsed to {v} minutes"
+        if fn == "parse_call":
+            doc = self.documented_call(s)
+            if doc is not None and {int(k): x for k, x in v} != doc:
+                return f"call definition {s!r} means {doc} but was converted to {v}"
         if out.get("ring"):
             return f"{fn}({s!r}) accepted {v!r}, which cannot be rung: {out['ring']}"
         if fn == "parse_start_row":
